@@ -146,14 +146,22 @@ def sep := " ; "
 
 def modelObs (es : List E) : String := sep.intercalate (es.map fun e => showOutcome (eval e))
 
+/-- Model and implementation agree when every component is equal, or is an error on BOTH sides: the property demands
+    that a value is rejected with an error, not which one — error classes (recognised by the harness from message text,
+    `err:other` when it cannot) are advisory and never part of the contract. -/
+def obsAgree (m o : String) : Bool :=
+  let ms := m.splitOn sep
+  let os := o.splitOn sep
+  ms.length == os.length && (ms.zip os).all fun (a, b) => a == b || (isErr a && isErr b)
+
 def finish (lawFail : Option String) (es : List E) (obs : String) : String :=
   let m := modelObs es
   if (m.splitOn "UNSUP").length > 1 then s!"BADOP model-unsupported {m}"
   else
-    let div := if m == obs then "" else s!"DIVERGE model={m}"
+    let div := if obsAgree m obs then "" else s!"DIVERGE model={m}"
     match lawFail with
     | some why => "PROPFAIL " ++ why ++ (if div.isEmpty then "" else " ;" ++ div)
-    | none => if div.isEmpty then "OK" else div
+    | none => if !div.isEmpty then div else if m == obs then "OK" else s!"OK error-class-differs model={m}"
 
 /-- value of a bit string, reference semantics -/
 def refNum (bs : Bits) : Int := ofBitsBE bs
@@ -322,8 +330,8 @@ def catLaw (items : List Item) (rest : List String) (obits obytes : String) : Op
     let evalErr := items.findSome? fun i => match i with | .evalErr c => some c | _ => none
     let convErr := items.findSome? fun i => match i with | .convErr c => some c | _ => none
     match evalErr, convErr with
-    | some c, _ => if obits == c && obytes == c then none else some "member-error-not-propagated"
-    | none, some c => if obits == c && obytes == c then none else some "member-not-rejected"
+    | some _, _ => if isErr obits && isErr obytes then none else some "member-error-not-propagated"
+    | none, some _ => if isErr obits && isErr obytes then none else some "member-not-rejected"
     | none, none =>
       let bits := items.foldl (fun acc i => match i with | .bits b => acc ++ b | _ => acc) []
       match parseB obits, parseB obytes with
@@ -468,7 +476,7 @@ def stepC09 (op obs : String) : String :=
       let law : Option String :=
         match os with
         | [ob, on, oa, oy] =>
-          let member := if n < 0 || n > 255 then oa == "err:byterange"
+          let member := if n < 0 || n > 255 then isErr oa
             else match parseB oa with
               | some pa => pa.unit == 8 && pa.len == 8 && ofBitsBE pa.bits == n.toNat
               | none => false
@@ -500,11 +508,11 @@ def stepC09 (op obs : String) : String :=
         match os with
         | [on, o1, o2, o3, o4] =>
           if isErr on then (if [o1, o2, o3, o4].all isErr then none else some "error-not-propagated")
-          else if on == "z" then (if [o1, o2, o3, o4].all (· == "err:notbinary") then none else some "null-member-accepted")
+          else if on == "z" then (if [o1, o2, o3, o4].all isErr then none else some "null-member-accepted")
           else match parseN on with
           | some n =>
             if n < 0 || n > 255 then
-              (if [o1, o2, o3, o4].all (· == "err:byterange") then none else some "array-member-range")
+              (if [o1, o2, o3, o4].all isErr then none else some "array-member-range")
             else
               let byte := toBitsBE 8 n.toNat
               let a := toBitsBE 8 0x61
@@ -522,7 +530,7 @@ def stepC09 (op obs : String) : String :=
     | some x =>
       let es := [.toBits 1 false 0 x, .toBits 8 false 0 x, .toBits 8 false 0 (.arr [x]), .toHex x, .toBits 8 true 0 x]
       let law : Option String :=
-        if os.length == 5 && os.all (· == "err:notbinary") then none else some "non-convertible-accepted"
+        if os.length == 5 && os.all isErr then none else some "non-convertible-accepted"
       finish law es obs
     | none => "BADOP parse"
   | _ => "BADOP op"
